@@ -729,28 +729,61 @@ fn corruption(case: &Value, ctx: &mut Ctx) -> Report {
     }
     // restore and version checks
     std::fs::write(w.out.join(&fname), &files[&fname]).unwrap();
-    for (field, newv) in [("format_version", json!(2)), ("compiler_abi", json!(2))] {
-        let mut m = original.clone();
-        m[field] = newv;
+    // "written by another format version": the version field differs and the file is otherwise
+    // self-consistent (hashes recomputed the way that other compiler would have written them);
+    // also the plain edit of the field alone
+    let rehash = |iface: &Value| -> Option<String> {
+        let u: compiler::artifact::InterfaceUnit = serde_json::from_value(iface.clone()).ok()?;
+        Some(u.compute_hash())
+    };
+    let mut versioned: Vec<(String, Value)> = Vec::new();
+    for field in ["format_version", "compiler_abi"] {
+        for newv in [0u32, 2, 99] {
+            let mut m = original.clone();
+            m[field] = json!(newv);
+            versioned.push((format!("{}={};plain-edit", field, newv), m.clone()));
+            if target == "interface" {
+                if let Some(h) = rehash(&m) {
+                    m["interface_hash"] = json!(h);
+                    versioned.push((format!("{}={};self-consistent", field, newv), m));
+                }
+            } else {
+                // the embedded interface written by the other version as well
+                let mut m2 = original.clone();
+                m2["interface"][field] = json!(newv);
+                if let Some(h) = rehash(&m2["interface"]) {
+                    m2["interface"]["interface_hash"] = json!(h);
+                    versioned.push((format!("interface.{}={};self-consistent", field, newv), m2.clone()));
+                    m2[field] = json!(newv);
+                    versioned.push((format!("{}+interface.{}={};self-consistent", field, field, newv), m2));
+                }
+            }
+        }
+    }
+    for (what, m) in versioned {
         count += 1;
         std::fs::write(w.out.join(&fname), serde_json::to_string_pretty(&m).unwrap()).unwrap();
         let accepted = if target == "interface" {
             matches!(catch_unwind(AssertUnwindSafe(|| build_package(inputs(&w.root, &w.pkg(0), &w.out)))), Ok(Ok(_)))
         } else {
-            link_all(&w.out, &w.g).is_ok()
+            // read_core is the loading step; a later hash comparison at link time is a different check
+            matches!(catch_unwind(AssertUnwindSafe(|| read_core(&w.out.join(&fname)))), Ok(Ok(_)))
         };
         if accepted {
+            rep.tag("version:accepted");
             rep.findings.push(Finding {
                 property: "C15",
                 class: "artifact.other-format-version-accepted".into(),
-                site: format!("file={};field={}", target, field),
-                detail: format!("{} with {} changed was accepted", fname, field),
-                replay: json!({"kind": "corruption", "file": fname, "path": [field]}),
+                site: format!("file={};{}", target, what),
+                detail: format!("{} with {} was accepted", fname, what),
+                replay: json!({"kind": "corruption", "file": fname, "version_edit": what, "content": m}),
             });
         } else {
+            rep.tag("version:rejected");
             rejected += 1;
         }
     }
+    std::fs::write(w.out.join(&fname), &files[&fname]).unwrap();
     rep.sub_evaluations = count;
     rep.states = count;
     rep.transitions = count;
